@@ -1157,4 +1157,19 @@ example : subPath âŸ¨2, [("a", .dict [("x", vi 1), ("y", vi 2)]), ("b", vi 2)]âŸ
 example : ulist_setI_fresh [1, 2, 3] 1 9 (by decide) (by decide) (by decide) = (rfl : inplace [1, 2, 3] (.setI 0 1 9) = some [1, 9, 3]) := rfl
 example : listOp [1, 2] (.imul 0 2) = some [1, 2, 1, 2] âˆ§ inplace [1, 2] (.imul 0 2 : Op Nat) = some [1, 2] := by decide
 
+/-- `d - [k1, k2, â€¦]` with string members only is the fold of single deletions, whichever of the two list forms the driver takes
+(`subMixed` is the member-by-member form that also takes tuple paths: seeded change C16-u2) -/
+theorem subMixed_strings (d : D Val) (ks : List String) : subMixed d (ks.map Sum.inl) = .ok (subKeys d ks) := by
+  induction ks generalizing d with
+  | nil => rfl
+  | cons k ks ih =>
+    simp only [subMixed, List.map_cons, List.foldlM_cons, subKeys, List.foldl_cons] at *
+    exact ih (subKey d k)
+
+/-- a list holding one path is that path's deletion -/
+theorem subMixed_single_path (d : D Val) (p : List String) : subMixed d [Sum.inr p] = subPath d p := by
+  simp only [subMixed, List.foldlM_cons, List.foldlM_nil]
+  cases subPath d p <;> rfl
+
+
 end Pyg.Props.C16
